@@ -4,6 +4,7 @@ import (
 	"fmt"
 	"go/constant"
 	"go/token"
+	"sort"
 	"strings"
 
 	"golang.org/x/tools/go/ssa"
@@ -71,23 +72,29 @@ func runC05(c *eng.Ctx) {
 		for _, s := range wb {
 			tops[s.Instr] = true
 		}
-		// order tops by dominance: pick the one that dominates all others as `first`
+		// every pair of effects lies in one uninterrupted hold (the effects need not be ordered by dominance: with the page
+		// roll-over written in place the first cursor store sits on a branch)
+		_ = first
+		var list []ssa.Instruction
 		for t := range tops {
-			dom := true
-			for o := range tops {
-				if o != t && !eng.DominatedBy(put, o, []eng.Site{{Fn: put, Instr: t}}, nil) {
-					dom = false
+			list = append(list, t)
+		}
+		sort.Slice(list, func(i, j int) bool {
+			return p.InstrPos(list[i])+shortInstr(p, list[i]) < p.InstrPos(list[j])+shortInstr(p, list[j])
+		})
+		for _, t := range list {
+			ok, why := ls.At(t).HasField(qMu, true), "queue.rwMutex is not held (write) at this effect"
+			for _, o := range list {
+				if !ok {
+					break
+				}
+				if o == t {
+					continue
+				}
+				if same, w := ls.SameHold(t, o, qMu, true); !same {
+					ok, why = false, w
 				}
 			}
-			if dom {
-				first = t
-			}
-		}
-		if first == nil {
-			c.Undecided("no append effect dominates the others in Put (unrecognised shape)")
-		}
-		for t := range tops {
-			ok, why := ls.SameHold(first, t, qMu, true)
 			c.Check(ok, "effect:"+shortInstr(p, t), t, put,
 				"every effect of one append (cursor advance, data write, index entry, meta write, sequence publication) happens inside one uninterrupted write hold of queue.rwMutex taken in Put",
 				why)
@@ -181,14 +188,29 @@ func runC05(c *eng.Ctx) {
 			}
 		}
 		// the data-page cursor returned by alloc is the pre-advance offset and the advance is by dataLen
-		alloc := c.Fn(qAlloc)
+		alloc := allocBody(c)
 		adv := c.Some(alloc, eng.StoreField(qT+".messageOffset"), "store to messageOffset")
 		okAdv := false
 		for _, s := range adv {
 			if st, ok := s.Instr.(*ssa.Store); ok {
-				d := p.Desc(st.Val)
-				if strings.Contains(d, "+dataLen)") || strings.Contains(d, "(dataLen+") {
-					okAdv = true
+				if bo, isB := eng.Unwrap(st.Val).(*ssa.BinOp); isB && bo.Op == token.ADD {
+					x, y := bo.X, bo.Y
+					if !eng.DependsOnField(x, qT+".messageOffset") {
+						x, y = y, x
+					}
+					// the amount: the length parameter of alloc, or len(data) where the logic is written in Put
+					_, isParam := eng.Unwrap(y).(*ssa.Parameter)
+					isLen := eng.DependsOn(y, func(z ssa.Value) bool {
+						cl, ok := z.(*ssa.Call)
+						if !ok {
+							return false
+						}
+						b, ok := cl.Common().Value.(*ssa.Builtin)
+						return ok && b.Name() == "len"
+					})
+					if eng.DependsOnField(x, qT+".messageOffset") && (isParam || isLen) {
+						okAdv = true
+					}
 				}
 			}
 		}
@@ -211,8 +233,8 @@ func runC05(c *eng.Ctx) {
 			c.Undecided("constant pkg/queue.dataPageSize not found")
 		}
 		// the threshold alloc and Put are written against is that constant
-		for _, fk := range []string{qAlloc, qPut} {
-			g := c.Fn(fk)
+		for _, g := range []*ssa.Function{allocBody(c), c.Fn(qPut)} {
+			fk := p.FuncKey(g)
 			n := 0
 			for _, b := range eng.BlocksT(g) {
 				for _, in := range b.Instrs {
@@ -510,7 +532,11 @@ func layoutIndexEntry(c *eng.Ctx) {
 	// bind the writer's roles to their meaning at the call in Put
 	put := c.Fn(qPut)
 	call := c.One(put, eng.CallTo(qPersist), "call of persistMetaOfMessage").Instr.(*ssa.Call)
-	alloc := c.One(put, eng.CallTo(qAlloc), "call of alloc").Instr.(*ssa.Call)
+	// the cursor values of this append: results of alloc, or - where alloc's body is written in Put - the fields / the local read there
+	var alloc *ssa.Call
+	if p.Func(qAlloc) != nil && len(p.Func(qAlloc).Blocks) > 0 {
+		alloc = c.One(put, eng.CallTo(qAlloc), "call of alloc").Instr.(*ssa.Call)
+	}
 	wbs := c.Some(put, func(p *eng.Prog, in ssa.Instruction) bool {
 		cl, ok := in.(*ssa.Call)
 		return ok && cl.Common().IsInvoke() && cl.Common().Method.Name() == "WriteBytes"
@@ -523,6 +549,23 @@ func layoutIndexEntry(c *eng.Ctx) {
 		names[prm.Name()] = pargs[i]
 	}
 	isExtract := func(v ssa.Value, idx int) bool {
+		if alloc == nil {
+			// in-place form: the current page index / page are the queue's fields, the offset is the cursor read before its advance
+			switch idx {
+			case 0:
+				return eng.DependsOnField(v, qT+".dataPageIndex")
+			case 1:
+				return eng.DependsOnField(v, qT+".dataPage")
+			default:
+				u, ok := eng.Unwrap(v).(*ssa.UnOp)
+				if !ok || !eng.LoadField(qT+".messageOffset")(p, u) {
+					return false
+				}
+				adv := p.Sites(put, eng.StoreField(qT+".messageOffset"))
+				_, late := eng.Reaches(put, u, adv, nil)
+				return late // read before (at least one of) the advancing stores
+			}
+		}
 		e, ok := v.(*ssa.Extract)
 		return ok && e.Tuple == ssa.Value(alloc) && e.Index == idx
 	}
@@ -536,15 +579,17 @@ func layoutIndexEntry(c *eng.Ctx) {
 	c.Check(p.Desc(eng.CallArgs(wb)[0]) == "data" && isExtract(eng.CallRecv(wb), 1), "data-written-to-allocated-page", wb, put,
 		"the message bytes are written into the page alloc handed out", "WriteBytes("+p.Desc(eng.CallArgs(wb)[0])+") on "+p.Desc(eng.CallRecv(wb)))
 	// alloc returns (dataPageIndex, dataPage, pre-advance offset)
-	al := c.Fn(qAlloc)
-	for i, r := range eng.SuccessReturns(al) {
-		ret := r.(*ssa.Return)
-		if len(ret.Results) != 4 {
-			continue
+	if alloc != nil {
+		al := c.Fn(qAlloc)
+		for i, r := range eng.SuccessReturns(al) {
+			ret := r.(*ssa.Return)
+			if len(ret.Results) != 4 {
+				continue
+			}
+			d0, d1 := p.Desc(ret.Results[0]), p.Desc(ret.Results[1])
+			c.Check(strings.HasSuffix(d0, ".dataPageIndex") && strings.HasSuffix(d1, ".dataPage"), fmt.Sprintf("alloc-returns-current-page[%d]", i), r, al,
+				"alloc returns the current data page and its index", "returns ("+d0+", "+d1+")")
 		}
-		d0, d1 := p.Desc(ret.Results[0]), p.Desc(ret.Results[1])
-		c.Check(strings.HasSuffix(d0, ".dataPageIndex") && strings.HasSuffix(d1, ".dataPage"), fmt.Sprintf("alloc-returns-current-page[%d]", i), r, al,
-			"alloc returns the current data page and its index", "returns ("+d0+", "+d1+")")
 	}
 
 	// readers
@@ -860,9 +905,19 @@ func pageSlotOfOneSequence(c *eng.Ctx) {
 					})
 					c.Check(isApp && k == 0, fmt.Sprintf("%s:entry-of-exactly-appended[%d]", fk, i), qd, f, "on reopen the cursor is restored from the entry of the last appended sequence itself (not a neighbour)", fmt.Sprintf("uses %s (+%d)", p.Desc(base), k))
 				}
-				c.Check(eng.SameValue(qd.X, rm.X), fmt.Sprintf("%s:same-sequence[%d,%d]", fk, i, j), rm, f,
+				// an operand computed in a helper (indexOffsetOf(seq)) stands for what this function passes to it
+				up := func(bo *ssa.BinOp) ssa.Value {
+					if bo.Parent() != f {
+						if v := eng.UpParamVia(f, eng.Site{Fn: bo.Parent(), Instr: bo}, eng.Unwrap(bo.X)); v != nil {
+							return v
+						}
+					}
+					return bo.X
+				}
+				qx, rx := up(qd), up(rm)
+				c.Check(eng.SameValue(qx, rx) || p.Desc(qx) == p.Desc(rx) && p.Desc(qx) != "?", fmt.Sprintf("%s:same-sequence[%d,%d]", fk, i, j), rm, f,
 					"the index page and the slot inside it are computed from the same sequence value (an entry is read from / written to the page that holds it)",
-					"page of "+p.Desc(qd.X)+" but slot of "+p.Desc(rm.X))
+					"page of "+p.Desc(qx)+" but slot of "+p.Desc(rx))
 			}
 		}
 	}
@@ -881,23 +936,39 @@ func failedAcquireLeavesCursor(c *eng.Ctx) {
 		{qAlloc, []string{qT + ".messageOffset", qT + ".dataPageIndex", qT + ".dataPage"}},
 		{qPersist, []string{qT + ".indexPageIndex", qT + ".indexPage"}},
 	} {
-		f := c.Fn(x.fn)
-		acq := c.Some(f, invokeOn("PageFct", "AcquirePage"), "AcquirePage(next)")
-		succ := map[ssa.Instruction]bool{}
-		for _, r := range eng.SuccessReturns(f) {
-			succ[r] = true
+		f := c.P.Func(x.fn)
+		fct := ".indexPageFct"
+		if x.fn == qAlloc {
+			f, fct = allocBody(c), ".dataPageFct"
 		}
+		if f == nil {
+			f = c.Fn(x.fn)
+		}
+		acq := c.Some(f, invokeOn(fct, "AcquirePage"), "AcquirePage(next)")
+		// the exits that report a failed acquisition: what the error edge of the AcquirePage call leads to
 		var fails []eng.Site
-		for _, b := range f.Blocks {
-			for _, in := range b.Instrs {
-				if r, ok := in.(*ssa.Return); ok && !succ[r] && b != f.Recover {
-					fails = append(fails, eng.Site{Fn: f, Instr: r})
+		for _, a := range acq {
+			g := a.Instr.Parent()
+			_, errEdges := eng.ErrCheckEdges(g, a.Instr.(ssa.Value))
+			for _, e := range errEdges {
+				first := e.B.Succs[e.Succ].Instrs[0]
+				for _, b := range g.Blocks {
+					r, ok := b.Instrs[len(b.Instrs)-1].(*ssa.Return)
+					if !ok || b == g.Recover || eng.ReturnsNilError(r) {
+						continue
+					}
+					if _, reach := eng.PathExists(eng.PathQuery{Fn: g, After: first, Target: func(z ssa.Instruction) bool { return z == r }}); reach || first == ssa.Instruction(r) {
+						fails = append(fails, eng.Site{Fn: g, Instr: r})
+					}
 				}
 			}
 		}
 		c.Check(len(fails) > 0, x.fn+":has-failing-exit", nil, f, x.fn+" reports a failed page acquisition", "no error return")
 		for i, st := range c.Some(f, eng.StoreField(x.fields...), "cursor stores") {
-			_, bad := eng.Reaches(f, st.Instr, fails, nil)
+			if st.Instr.Parent() != f && x.fn == qAlloc {
+				continue // stores of a helper Put enters (none today)
+			}
+			_, bad := eng.Reaches(st.Instr.Parent(), st.Instr, fails, nil)
 			c.Check(!bad, fmt.Sprintf("%s:no-cursor-store-before-failing-exit[%d]", x.fn, i), st.Instr, f,
 				"the cursor (page index, page, offset) is moved only when the new page was acquired: no failing exit is reachable after a cursor store",
 				"store to "+p.Desc(st.Instr.(*ssa.Store).Addr)+" can be followed by an error return (the cursor then names a page that is not mapped)")
@@ -953,4 +1024,12 @@ func putPublicationOrder(c *eng.Ctx) {
 			}
 		}
 	})
+}
+
+// allocBody: the function that holds the data-cursor logic of an append - queue.alloc, or Put itself when that logic is written in place.
+func allocBody(c *eng.Ctx) *ssa.Function {
+	if f := c.P.Func(qAlloc); f != nil && len(f.Blocks) > 0 {
+		return f
+	}
+	return c.Fn(qPut)
 }
